@@ -189,6 +189,181 @@ Theorem gen_not_found_only_if_none R cls rq :
   not_found (gen_call_view R cls rq) -> forall x, In x (tried R cls rq) -> qualifies rq x = false.
 Proof. rewrite gen_call_view_is_model. apply not_found_only_if_none. Qed.
 
+(* ------------------------------------------------------------ text() / phash() of the predicate classes:
+   the identity of a registration inside its slot.  The scripts peel the common context off both sides
+   (f_equal) and compare the per-item functions on every shape of item. *)
+Ltac text_same :=
+  repeat first [ reflexivity
+               | apply map_ext; let e := fresh "e" in intros e; destruct e as [? [[|? ?]|]]; reflexivity
+               | apply map_ext; let e := fresh "e" in intros e; destruct e; reflexivity
+               | f_equal ].
+
+Theorem gen_text_xhr_is_model b : gen_text_xhr b = pred_phash (PXhr b).
+Proof. unfold gen_text_xhr; cbn [pred_phash]; text_same. Qed.
+Theorem gen_text_request_method_is_model vals : gen_text_request_method vals = pred_phash (PMethod vals).
+Proof. unfold gen_text_request_method; cbn [pred_phash]; text_same. Qed.
+Theorem gen_text_path_info_is_model o : gen_text_path_info o = pred_phash (PPathInfo o).
+Proof. unfold gen_text_path_info; cbn [pred_phash]; text_same. Qed.
+Theorem gen_text_request_param_is_model reqs : gen_text_request_param reqs = pred_phash (PParam reqs).
+Proof. unfold gen_text_request_param; cbn [pred_phash]; text_same. Qed.
+Theorem gen_text_header_is_model vals : gen_text_header vals = pred_phash (PHeader vals).
+Proof. unfold gen_text_header; cbn [pred_phash]; text_same. Qed.
+Theorem gen_text_accept_is_model values : gen_text_accept values = pred_phash (PAccept values).
+Proof. unfold gen_text_accept; cbn [pred_phash]; text_same. Qed.
+Theorem gen_text_containment_is_model i s : gen_text_containment s = pred_phash (PContainment i s).
+Proof. unfold gen_text_containment; cbn [pred_phash]; text_same. Qed.
+Theorem gen_text_match_param_is_model reqs : gen_text_match_param reqs = pred_phash (PMatchParam reqs).
+Proof. unfold gen_text_match_param; cbn [pred_phash]; text_same. Qed.
+Theorem gen_text_physical_path_is_model val : gen_text_physical_path val = pred_phash (PPhysPath val).
+Proof. unfold gen_text_physical_path; cbn [pred_phash]; text_same. Qed.
+Theorem gen_text_is_authenticated_is_model b : gen_text_is_authenticated b = pred_phash (PIsAuth b).
+Proof. unfold gen_text_is_authenticated; cbn [pred_phash]; text_same. Qed.
+Theorem gen_phash_custom_is_model i : gen_phash_custom i = pred_phash (PCustom i).
+Proof. unfold gen_phash_custom; cbn [pred_phash]; text_same. Qed.
+Theorem gen_phash_not_is_model p : gen_phash_not p = pred_phash (PNot p).
+Proof.
+  unfold gen_phash_not, gen_notted_text. cbn [pred_phash].
+  destruct (nonempty (pred_phash p)); reflexivity.
+Qed.
+
+Theorem gen_pred_phash_is_model p : gen_pred_phash p = pred_phash p.
+Proof.
+  destruct p; unfold gen_pred_phash;
+    rewrite ?gen_text_xhr_is_model, ?gen_text_request_method_is_model, ?gen_text_path_info_is_model,
+      ?gen_text_request_param_is_model, ?gen_text_header_is_model, ?gen_text_accept_is_model,
+      ?(gen_text_containment_is_model id str), ?gen_text_match_param_is_model, ?gen_text_physical_path_is_model,
+      ?gen_text_is_authenticated_is_model, ?gen_phash_custom_is_model, ?gen_phash_not_is_model; reflexivity.
+Qed.
+
+(* ------------------------------------------------------------ constructors (__init__) that normalise their value *)
+Lemma split1_memN c s : split1 c s = None <-> memN c s = false.
+Proof.
+  induction s as [|x r IH]; simpl; [tauto|].
+  rewrite (N.eqb_sym c x). destruct (N.eqb x c); simpl.
+  - split; discriminate.
+  - destruct (split1 c r) as [[a b]|].
+    + split; [discriminate|]. intros H. apply IH in H. discriminate.
+    + split; [intros _; apply IH; reflexivity|reflexivity].
+Qed.
+
+Theorem gen_mk_request_method_spec l :
+  gen_mk_request_method l =
+  Some (PMethod (if mem_text rm_get (sorted_texts l) && negb (mem_text rm_head (sorted_texts l))
+                 then sorted_texts (sorted_texts l ++ [rm_head]) else sorted_texts l)).
+Proof.
+  unfold gen_mk_request_method, rm_get, rm_head.
+  destruct (mem_text _ (sorted_texts l)); [destruct (mem_text _ (sorted_texts l))|]; reflexivity.
+Qed.
+
+Theorem gen_mk_request_param_spec l :
+  gen_mk_request_param l = Some (PParam (map param_req (sorted_texts l))).
+Proof.
+  unfold gen_mk_request_param.
+  match goal with
+  | |- ?F ?l0 nil = _ =>
+      enough (H : forall ps acc, F ps acc = Some (PParam (acc ++ map param_req ps))) by apply (H l0 nil)
+  end.
+  induction ps as [|p ps IH]; intros acc.
+  - cbn. rewrite app_nil_r. reflexivity.
+  - cbn [map]. lazy beta iota zeta.
+    destruct p as [|c rest].
+    + cbn. rewrite IH, <- app_assoc. reflexivity.
+    + unfold param_req. cbn [starts_with tl]. rewrite andb_true_r, (N.eqb_sym 61 c). change eqc with 61%N.
+      destruct (N.eqb c 61) eqn:Ec.
+      * destruct (split1 61 rest) as [[k v]|] eqn:S.
+        -- destruct (memN 61 rest) eqn:M; [|apply split1_memN in M; congruence].
+           cbn [fst snd]. rewrite IH, <- app_assoc. reflexivity.
+        -- apply split1_memN in S. rewrite S. rewrite IH, <- app_assoc. reflexivity.
+      * destruct (split1 61 (c :: rest)) as [[k v]|] eqn:S.
+        -- destruct (memN 61 (c :: rest)) eqn:M; [|apply split1_memN in M; congruence].
+           cbn [fst snd]. rewrite IH, <- app_assoc. reflexivity.
+        -- apply split1_memN in S. rewrite S. rewrite IH, <- app_assoc. reflexivity.
+Qed.
+
+Theorem gen_mk_header_spec l :
+  gen_mk_header l = Some (PHeader (map header_req (sorted_texts l))).
+Proof.
+  unfold gen_mk_header.
+  match goal with
+  | |- ?F ?l0 nil = _ =>
+      enough (H : forall ps acc, F ps acc = Some (PHeader (acc ++ map header_req ps))) by apply (H l0 nil)
+  end.
+  induction ps as [|p ps IH]; intros acc.
+  - cbn. rewrite app_nil_r. reflexivity.
+  - cbn [map]. lazy beta iota zeta. unfold header_req.
+    destruct (split1 58 p) as [[a b]|] eqn:S.
+    + destruct (memN 58 p) eqn:M; [|apply split1_memN in M; congruence].
+      cbn [fst snd]. rewrite IH, <- app_assoc. reflexivity.
+    + apply split1_memN in S. rewrite S. rewrite IH, <- app_assoc. reflexivity.
+Qed.
+
+Theorem gen_mk_physical_path_is_model v : gen_mk_physical_path v = mk_phys v.
+Proof. destruct v; reflexivity. Qed.
+
+Lemma map_opt_map {A B C} (f : B -> option C) (g : A -> B) l : map_opt f (map g l) = map_opt (fun x => f (g x)) l.
+Proof. induction l as [|x l IH]; simpl; [reflexivity|]. rewrite IH. reflexivity. Qed.
+Lemma map_opt_ext {A B} (f g : A -> option B) l : (forall x, f x = g x) -> map_opt f l = map_opt g l.
+Proof. intros H. induction l as [|x l IH]; simpl; [reflexivity|]. rewrite H, IH. reflexivity. Qed.
+
+Theorem gen_mk_match_param_is_model v l : as_tuple v = Some l -> gen_mk_match_param l = mk_match_param v.
+Proof.
+  intros Hv. unfold gen_mk_match_param, mk_match_param, as_sorted_tuple. rewrite Hv. cbn [obind].
+  rewrite map_opt_map.
+  match goal with
+  | |- match map_opt ?f ?l0 with _ => _ end = obind (map_opt ?g ?l0) _ =>
+      rewrite (map_opt_ext f g l0) by (intros p; destruct (split1 _ p) as [[x y]|]; reflexivity)
+  end.
+  destruct (map_opt _ _); reflexivity.
+Qed.
+
+Theorem gen_factory_is_model name v : gen_factory name v = factory name v.
+Proof.
+  unfold gen_factory.
+  destruct (text_eqb_spec name nm_request_method) as [->|H1].
+  { unfold factory. change (text_eqb nm_request_method nm_xhr) with false.
+    change (text_eqb nm_request_method nm_request_method) with true. cbv iota.
+    unfold mk_method, as_sorted_tuple. destruct (as_tuple v) as [l|]; [|reflexivity].
+    cbn [obind]. apply gen_mk_request_method_spec. }
+  destruct (text_eqb_spec name nm_request_param) as [->|H2].
+  { unfold factory. change (text_eqb nm_request_param nm_xhr) with false.
+    change (text_eqb nm_request_param nm_request_method) with false.
+    change (text_eqb nm_request_param nm_path_info) with false.
+    change (text_eqb nm_request_param nm_request_param) with true. cbv iota.
+    unfold mk_param, as_sorted_tuple. destruct (as_tuple v) as [l|]; [|reflexivity].
+    cbn [obind]. apply gen_mk_request_param_spec. }
+  destruct (text_eqb_spec name nm_header) as [->|H3].
+  { unfold factory. change (text_eqb nm_header nm_xhr) with false.
+    change (text_eqb nm_header nm_request_method) with false.
+    change (text_eqb nm_header nm_path_info) with false.
+    change (text_eqb nm_header nm_request_param) with false.
+    change (text_eqb nm_header nm_header) with true. cbv iota.
+    unfold mk_header, as_sorted_tuple. destruct (as_tuple v) as [l|]; [|reflexivity].
+    cbn [obind]. apply gen_mk_header_spec. }
+  destruct (text_eqb_spec name nm_match_param) as [->|H4].
+  { unfold factory. change (text_eqb nm_match_param nm_xhr) with false.
+    change (text_eqb nm_match_param nm_request_method) with false.
+    change (text_eqb nm_match_param nm_path_info) with false.
+    change (text_eqb nm_match_param nm_request_param) with false.
+    change (text_eqb nm_match_param nm_header) with false.
+    change (text_eqb nm_match_param nm_accept) with false.
+    change (text_eqb nm_match_param nm_containment) with false.
+    change (text_eqb nm_match_param nm_match_param) with true. cbv iota.
+    destruct (as_tuple v) as [l|] eqn:Ev.
+    - apply (gen_mk_match_param_is_model v l Ev).
+    - unfold mk_match_param, as_sorted_tuple. rewrite Ev. reflexivity. }
+  destruct (text_eqb_spec name nm_physical_path) as [->|H5]; [|reflexivity].
+  unfold factory. change (text_eqb nm_physical_path nm_xhr) with false.
+  change (text_eqb nm_physical_path nm_request_method) with false.
+  change (text_eqb nm_physical_path nm_path_info) with false.
+  change (text_eqb nm_physical_path nm_request_param) with false.
+  change (text_eqb nm_physical_path nm_header) with false.
+  change (text_eqb nm_physical_path nm_accept) with false.
+  change (text_eqb nm_physical_path nm_containment) with false.
+  change (text_eqb nm_physical_path nm_match_param) with false.
+  change (text_eqb nm_physical_path nm_physical_path) with true. cbv iota.
+  apply gen_mk_physical_path_is_model.
+Qed.
+
 (* ------------------------------------------------------------ PredicateList.make *)
 Definition made_triple (m : made) : Z * list pred * text := (m_order m, m_preds m, m_phash m).
 
@@ -275,8 +450,31 @@ Proof.
     induction vs as [|[nt v] vs IHv]; intros ps0 ws0.
     + cbn [make_vals]. rewrite (IH _ _ _ _ Hl'). rewrite make_loop_kw_del by assumption. reflexivity.
     + cbn [make_vals fst snd]. lazy beta iota zeta; cbn [fst snd].
-      unfold factory_of. destruct nt; destruct (factory name v) as [p|]; cbn [obind]; try reflexivity.
-      * lazy beta iota zeta; cbn [fst snd]. rewrite <- concat_snoc. apply IHv.
-      * lazy beta iota zeta; cbn [fst snd]. rewrite <- concat_snoc. apply IHv.
+      unfold factory_of. rewrite !gen_factory_is_model.
+      destruct nt; destruct (factory name v) as [p|]; cbn [obind]; try reflexivity.
+      * lazy beta iota zeta; cbn [fst snd]. rewrite gen_pred_phash_is_model, <- concat_snoc. apply IHv.
+      * lazy beta iota zeta; cbn [fst snd]. rewrite gen_pred_phash_is_model, <- concat_snoc. apply IHv.
 Qed.
 
+
+(* ------------------------------------------------------------ the regenerated identity texts keep values apart *)
+(* two containment= values give the same registration key exactly when their str() is the same text (the
+   class / interface is printed in full; a shortened print would merge same-named classes of different modules) *)
+Theorem gen_containment_phash_iff i j s t :
+  gen_pred_phash (PContainment i s) = gen_pred_phash (PContainment j t) <-> s = t.
+Proof.
+  rewrite !gen_pred_phash_is_model. cbn [pred_phash]. split; [apply app_inv_head|intros ->; reflexivity].
+Qed.
+
+(* not_(P) and P never share a key when P has a real phash, for the REGENERATED Notted.phash *)
+Theorem gen_notted_phash_differs p :
+  pred_phash p <> [] -> gen_pred_phash (PNot p) <> gen_pred_phash p.
+Proof.
+  rewrite !gen_pred_phash_is_model. cbn [pred_phash]. intros Hne.
+  destruct (pred_phash p) as [|c r] eqn:E; [contradiction|]. cbn [nonempty].
+  intros H. apply (f_equal (@length N)) in H. rewrite app_length in H.
+  assert (0 < length not_mark)%nat by (vm_compute; lia). lia.
+Qed.
+Example gen_notted_phash_differs_nonvacuous :
+  pred_phash (PXhr true) <> [] /\ gen_pred_phash (PNot (PXhr true)) <> gen_pred_phash (PXhr true).
+Proof. split; [vm_compute; discriminate|apply gen_notted_phash_differs; vm_compute; discriminate]. Qed.
